@@ -98,7 +98,10 @@ class Operation:
     def __eq__(self, value: object) -> bool:
         if not isinstance(value, Operation):
             return False
-        return self.__slots__ == value.__slots__
+        return all(
+            getattr(self, slot) == getattr(value, slot)
+            for slot in self.__slots__
+        )
 
     def __repr__(self) -> str:
         machines = (
